@@ -345,6 +345,11 @@ def run_case(case):
             viol.append(V('namespace-attr', 'namespace-attr:%s' % k, 'target namespace %s=%r, expected %r (source %r, options %r)' % (
                 k, got_top[k], e, _ns_attrs(src_root)[k], case['options'])))
             break
+    # ... but not its name: the namespace the ports go into keeps the name it has in the destination
+    want_name = case['target'].split('.')[-1] if case['target'] else droot.name
+    obs['target_name_checks'] = 1
+    if target_ns.name != want_name:
+        viol.append(V('namespace-attr', 'namespace-attr:name', 'the target namespace is called %r after the exposure, expected %r' % (target_ns.name, want_name)))
     # the same class exposed a second time into the same namespace, with narrower rules: what the first exposure (and the
     # destination itself) put there stays in place
     # (with a top-level rule only: a nested rule re-creates the namespace above it, which replaces a namespace of the same name as
